@@ -45,11 +45,14 @@ class FakeServerT(Component):
     port = 1
 
     def init(self, *a, **kw):
-        self.out = []
+        self.outs = {}          # bytes written per connection
+
+    @property
+    def out(self):              # the connection under test of the two-party cases
+        return self.outs.setdefault('SOCK', [])
 
     def write(self, sock, data):
-        if sock == 'SOCK':      # the connection under test; other connections of the server ('conn' op) are not read
-            self.out.append(bytes(data))
+        self.outs.setdefault(sock, []).append(bytes(data))
 
     def close(self, *a):
         pass
@@ -162,7 +165,8 @@ def snapshot(e):
         extra.pop('cause')
         if isinstance(extra.get('effects'), int):
             extra.pop('effects')
-    if extra.get('complete_channels') == ('node_result',) and isinstance(extra['complete_channels'], tuple):
+    cc = extra.get('complete_channels')
+    if isinstance(cc, tuple) and len(cc) == 1 and (cc[0] == 'node_result' or isinstance(cc[0], nprotocol.Protocol)):
         extra.pop('complete_channels')
     return {'name': e.name, 'args': list(e.args), 'kwargs': dict(e.kwargs), 'channels': list(e.channels),
             'success': _flag(e.success), 'failure': _flag(e.failure), 'notify': _flag(e.notify), 'attrs': extra}
@@ -482,7 +486,7 @@ class C19(Prop):
                    'parses, packet + partial delimiter does not parse',
                    'the value of a failed remote event (type, exception, traceback as text) is opaque: one marker',
                    'not covered: invalid UTF-8, floats, recursion-depth errors of json, meta given as non-empty array, '
-                   'both parties sending calls at the same time on one connection, several peers on one server']
+                   'both parties sending calls at the same time on one connection; several connections on one called side are tied per connection by K and the oracle, not by a theorem']
 
     def __init__(self):
         self.stats = {}
@@ -512,6 +516,8 @@ class C19(Prop):
                 st['load'] += 1
                 st['hostile_kinds'][kind] = st['hostile_kinds'].get(kind, 0) + 1
                 cases.append({'k': 'load', 'j': d, 'hk': kind})
+            elif r < 0.66:
+                cases.append(self.gen_multi(rng, st))
             elif r < 0.70:
                 st['run'] = st.get('run', 0) + 1
                 pk = []
@@ -534,6 +540,43 @@ class C19(Prop):
                 cases.append({'k': 'serial', 'ev': sp, 'id': rng.choice([0, 1, 5, 12345])})
         self.stats = {'distribution': st}
         return cases
+
+    def gen_multi(self, rng, st):
+        """two or three connections on one called side; every connection sends calls (ids 0, 1, .. on each), all are in
+        flight together, deliveries interleaved"""
+        st['multi'] = st.get('multi', 0) + 1
+        hub = rng.choice(['server', 'node'])
+        n = rng.choice([2, 2, 3])
+        events, ops = [], []
+        per = rng.randint(1, 2)
+        for k in range(n):
+            evs = []
+            for i in range(per):
+                sp = gen_event(rng, i)
+                sp['name'] = rng.choice(ECHO + ECHO + NIL + ['boom'])
+                sp['notify'] = False
+                sp['args'][-1] = ['#', i, k]
+                if hub == 'node':
+                    sp['mode'] = 'call' if rng.random() < 0.8 else rng.choice(['api', 'attr'])
+                evs.append(sp)
+            evs.append(dict(PROBE, args=[['probe', k]]))
+            events.append(evs)
+        for i in range(per):
+            for k in rng.sample(range(n), n):
+                ops.append(['send', i, k])
+        deliver = [['abp', k] if rng.random() < 0.3 else ['ab', 0, k] for k in range(n)]
+        rng.shuffle(deliver)
+        ops += deliver
+        back = [k for k in range(n) for _ in range(per + 1)]
+        rng.shuffle(back)
+        ops += [['bap', k] for k in back]
+        for k in range(n):
+            ops += [['ab', 0, k], ['ba', 0, k], ['ab', 0, k], ['ba', 0, k]]
+        for k in rng.sample(range(n), n):
+            ops += [['send', per, k]]
+        for k in range(n):
+            ops += [['ab', 0, k], ['ba', 0, k], ['ab', 0, k], ['ba', 0, k]]
+        return {'k': 'multi', 'hub': hub, 'events': events, 'ops': ops}
 
     def gen_mixed(self, rng, st):
         """sends with and without result mixed on one connection; replies in separate reads / one read / cut"""
@@ -675,6 +718,8 @@ class C19(Prop):
             return {'r': [v, ident, er, meta]}
         if k == 'run':
             return self._impl_run(c)
+        if k == 'multi':
+            return self._impl_multi(c)
         if k == 'serial':
             sp = c['ev']
             e = mk_event(sp)
@@ -789,6 +834,126 @@ class C19(Prop):
                 'bufs': [len(getattr(prot_caller, '_Protocol__buffer', b'')),
                          len(getattr(prot_callee, '_Protocol__buffer', b''))]}
 
+    @staticmethod
+    def spoke_case(c, k):
+        """connection k of a 'multi' case as a two-party case (what the model and the oracle are applied to)"""
+        ops = [op[:-1] for op in c['ops'] if op[-1] == k]
+        return {'k': 'proto', 'dir': 'c2s' if c['hub'] == 'server' else 's2c', 'events': c['events'][k], 'fws': None,
+                'fwr': None, 'ops': ops, 'callee_chan': 'node' if c['hub'] == 'server' else 'node_client_p%d' % k}
+
+    def _impl_multi(self, c):
+        """several connections in one process on the called side: hub 'server' = one Server with a Protocol per connected
+        client (the clients call), hub 'node' = one Node with a Client/Protocol per peer (the servers call); every
+        connection has its own wires; equal call ids are in flight on different connections"""
+        n = len(c['events'])
+        mH = Manager()
+        app = AppB()
+        spokes = []
+        if c['hub'] == 'server':
+            nH = Node(port=1).register(mH)
+            app.register(mH)
+            ticks(mH)
+            tH = nH.server.server
+            for k in range(n):
+                sock = 'SOCK%d' % k
+                mH.fire(connect(sock, 'h', 2 + k), nH.channel)
+                ticks(mH)
+                mS = Manager()
+                nS = Node().register(mS)
+                ch = nS.add('peer%d' % k, 'h', 1, reconnect_delay=0)
+                ticks(mS)
+                cl = [x for x in nS.components if isinstance(x, nclient.Client)][0]
+                tS = [x for x in cl.components if isinstance(x, FakeClientT)][0]
+                spokes.append({
+                    'm': mS, 'send': (lambda ev, sp, mS=mS, k=k: mS.fire(remote(ev, 'peer%d' % k, channel=sp['chan']))),
+                    'out': tS.out, 'hub_out': tH.outs.setdefault(sock, []),
+                    'to_hub': (lambda d, sock=sock: mH.fire(read(sock, d), nH.channel)),
+                    'to_spoke': (lambda d, mS=mS, ch=ch: mS.fire(read(d), ch)),
+                    'prot': [x for x in cl.components if isinstance(x, nprotocol.Protocol)][0]})
+        else:
+            nH = Node().register(mH)
+            app.register(mH)
+            for k in range(n):
+                ch = nH.add('p%d' % k, 'h', 1, reconnect_delay=0)
+                ticks(mH)
+                cl = [x for x in nH.components if isinstance(x, nclient.Client) and x.channel == ch][0]
+                tH = [x for x in cl.components if isinstance(x, FakeClientT)][0]
+                mS = Manager()
+                nS = Node(port=1).register(mS)
+                ticks(mS)
+                sock = 'MSOCK%d' % k
+                mS.fire(connect(sock, 'h', 2), nS.channel)
+                ticks(mS)
+                CallerB(nS.server, sock).register(mS)
+                ticks(mS)
+                tS = nS.server.server
+                spokes.append({
+                    'm': mS, 'send': (lambda ev, sp, mS=mS: mS.fire(Event.create('go', ev, sp.get('mode', 'call')), 'callerb')),
+                    'out': tS.outs.setdefault(sock, []), 'hub_out': tH.out,
+                    'to_hub': (lambda d, ch=ch: mH.fire(read(d), ch)),
+                    'to_spoke': (lambda d, mS=mS, nS=nS, sock=sock: mS.fire(read(sock, d), nS.channel)),
+                    'prot': [x for x in nS.server.components if isinstance(x, nprotocol.Protocol)
+                             and getattr(x, '_Protocol__sock', None) == sock][0]})
+        ticks(mH)
+        wab = [bytearray() for _ in range(n)]
+        wba = [bytearray() for _ in range(n)]
+        calls = [[] for _ in range(n)]
+        delim = nprotocol.DELIMITER
+
+        def pump():
+            for k, sp in enumerate(spokes):
+                for d in sp['out']:
+                    wab[k].extend(d)
+                sp['out'].clear()
+                for d in sp['hub_out']:
+                    wba[k].extend(d)
+                sp['hub_out'].clear()
+
+        for op in c['ops']:
+            k = op[-1]
+            sp = spokes[k]
+            if op[0] == 'send':
+                spec = c['events'][k][op[1]]
+                ev = mk_event(spec)
+                if spec.get('mode') == 'attr':
+                    ev.node_without_result = True
+                if c['hub'] == 'node' and spec['chan'] is not None:
+                    ev.channels = (spec['chan'],)
+                calls[k].append((ev, sp['send'](ev, spec)))
+                ticks(sp['m'])
+            elif op[0] in ('ab', 'abp'):
+                w = wab[k]
+                i = w.find(delim)
+                m = (len(w) if i < 0 else i + len(delim)) if op[0] == 'abp' else (op[1] or len(w))
+                d, w[:] = bytes(w[:m]), w[m:]
+                if d:
+                    sp['to_hub'](d)
+                    ticks(mH)
+            elif op[0] in ('ba', 'bap'):
+                w = wba[k]
+                i = w.find(delim)
+                m = (len(w) if i < 0 else i + len(delim)) if op[0] == 'bap' else (op[1] or len(w))
+                d, w[:] = bytes(w[:m]), w[m:]
+                if d:
+                    sp['to_spoke'](d)
+                    ticks(sp['m'])
+            pump()
+        hub_prots = [x for x in (nH.server.components if c['hub'] == 'server' else
+                                 [p for cl in nH.components if isinstance(cl, nclient.Client) for p in cl.components])
+                     if isinstance(x, nprotocol.Protocol)]
+        out = []
+        for k in range(n):
+            res = []
+            for ev, v in calls[k]:
+                err = [getattr(ev, 'errors')] if hasattr(ev, 'errors') else []
+                res.append({'fin': isinstance(v._value, Value), 'val': ERRV if (err and err[0] is True) else v.value,
+                            'err': err, 'verr': bool(v.errors)})
+            log = [s for s in app.log if s['args'] and isinstance(s['args'][-1], list) and s['args'][-1][-1:] == [k]]
+            out.append({'log': log, 'calls': res, 'callee_chan': 'node' if c['hub'] == 'server' else 'node_client_p%d' % k,
+                        'bufs': [len(getattr(spokes[k]['prot'], '_Protocol__buffer', b'')),
+                                 len(getattr(hub_prots[k], '_Protocol__buffer', b'')) if k < len(hub_prots) else 0]})
+        return {'spokes': out}
+
     def _impl_run(self, c):
         """the callee under the real Manager.run() in a thread: hostile packets, then an ordinary call"""
         import time
@@ -833,6 +998,16 @@ class C19(Prop):
         k = c['k']
         if k == 'run':
             return None
+        if k == 'multi':
+            tb = self._tb.get(canon(c))
+            if tb is None:
+                return None
+            terms = []
+            for i in range(len(c['events'])):
+                sc = self.spoke_case(c, i)
+                self._tb[canon(sc)] = tb
+                terms.append(self.model_term(sc))
+            return 'Tl [%s]' % '; '.join(terms)
         if k == 'load':
             return 'obs_load %s %s' % (self.excl(), jt(c['j']))
         if k == 'loadv':
@@ -880,12 +1055,14 @@ class C19(Prop):
         fr = c['fwr'] or [[], []]
         return 'obs_proto %s %s %s %s %s %s %s %s %s %s %s %s %s (JStr %s) [%s]' % (
             self.excl(), td, tl, nl(nprotocol.DELIMITER), strs(fs[0]), strs(fs[1]), strs(fr[0]), strs(fr[1]),
-            strs(ECHO), strs(NIL), strs(GEN), strs(BOOM), strs(LATE), nl('node_client_peer' if c.get('dir') == 's2c' else 'node'), '; '.join(ops))
+            strs(ECHO), strs(NIL), strs(GEN), strs(BOOM), strs(LATE), nl(c.get('callee_chan') or ('node_client_peer' if c.get('dir') == 's2c' else 'node')), '; '.join(ops))
 
     def obs_for_model(self, c, obs):
         if isinstance(obs, dict) and '__crash__' in obs:
             return [-999]
         k = c['k']
+        if k == 'multi':
+            return [self.obs_for_model(self.spoke_case(c, i), o) for i, o in enumerate(obs['spokes'])]
         if k == 'load':
             return [] if obs['r'] is None else [ev_obs(obs['r'][0]), jo(obs['r'][1])]
         if k == 'loadv':
@@ -907,6 +1084,12 @@ class C19(Prop):
             return None       # reported by the framework as "implementation raised"
         k = c['k']
         protected = EVENT_DIR | set(DISPATCHER_ATTRS)
+        if k == 'multi':
+            for i, o in enumerate(obs['spokes']):
+                w = self.oracle(self.spoke_case(c, i), o)
+                if w:
+                    return 'connection %d of %d on one %s: %s' % (i, len(obs['spokes']), c['hub'], w)
+            return None
         if k == 'run':
             if not obs['alive']:
                 return 'loop-dead: Manager.run() ended after the packets of the peer'
@@ -1012,7 +1195,7 @@ class C19(Prop):
     def nontrivial(self, c, obs):
         if c['k'] == 'proto':
             return len(c['events']) >= 3 or any(op[0] in ('iab', 'iba', 'abp', 'bap', 'abm', 'bam') or (op[0] in ('ab', 'ba') and op[1]) for op in c['ops'])
-        if c['k'] == 'run':
+        if c['k'] in ('run', 'multi'):
             return True
         if c['k'] in ('load', 'loadv'):
             return isinstance(obs, dict) and obs.get('r') is not None
